@@ -16,7 +16,7 @@ PROPERTY = "C02"
 RULE = (
     "E1 product enumeration through EnsembleEvaluator.calculate (combined and split paths, and a gradient-only request after functions at a nearby point or at a point that differs in a fixed variable): V x variable mask x R x "
     "realization weights x P x sampler (deterministic designs: axes, table, per-realization rotated, rank-deficient; "
-    "built-in norm/uniform/sobol/lhs with two seeds, and two built-in samplers assigned per variable; shared or not) x affine ensemble (distinct / identical realizations) x "
+    "built-in norm/uniform/sobol/lhs with two seeds, and two built-in samplers assigned per variable; shared or not) x affine ensemble (distinct / identical realizations; a spot slice with a common level of 2^20 on every realization for the stddev estimator with the dyadic designs) x "
     "estimator map x merge on/off x failure pattern (none, one perturbation, one perturbation with min_success=P, one "
     "realization) x bounds/boundary/magnitude x filter {none, on objective 0 only, on the constraint only} x variable scaler. Reference: exact slope combination "
     "(mean: sum w_r a_r; stddev: chain rule), fixed entries ==0.0, weighted objective gradient = objective-weighted sum. "
@@ -53,6 +53,9 @@ def ensemble(R: int, V: int, kind: str, seed: int) -> AffineEnsemble:
         for f in range(3):
             slopes[r, f] = POOL[(rr * 3 + f * 5 + seed) % len(POOL)][:V]
             offsets[r, f] = 0.5 * rr - 0.25 * f + 1.0 + (0.125 * rr * f)
+    if kind == "offset":
+        # a common level of 2^20 next to a spread of order one (all values stay exactly representable)
+        offsets += 2.0**20
     return AffineEnsemble(slopes, offsets)
 
 
@@ -357,12 +360,14 @@ def run_shard(shard: dict[str, Any]) -> core.ShardResult:
     if sampler == "rotated":
         shareds = (False,)
     for wname, shared, gseed, ens_kind, emap, merge, failure, bounds, flt, scaler in itertools.product(
-        wnames, shareds, gseeds, ("distinct", "identical"), range(3), (False, True), FAILURES, BOUNDKINDS, (False, "obj", "con"), (False, True)
+        wnames, shareds, gseeds, ("distinct", "identical", "offset"), range(3), (False, True), FAILURES, BOUNDKINDS, (False, "obj", "con"), (False, True)
     ):
         if merge and emap != 0:
             continue  # stddev does not support merging (ConfigError by design)
         if shard.get("slice") == "stddev3" and (emap == 0 or merge or bounds != "none" or flt == "con" or scaler or ens_kind != "distinct"):
             continue
+        if ens_kind == "offset" and (sampler not in ("axes", "table") or emap == 0 or merge or bounds != "none" or flt or scaler):
+            continue  # the large common level is a spot slice: stddev estimator, dyadic designs, plain configuration
         if flt and R == 1:
             continue
         if tier == "quick" and (bounds in ("loose", "tight-mirror") or gseed == 1):
